@@ -377,8 +377,14 @@ func c05fit(c *Ctx) {
 						nPol++
 					case bo.Op == token.EQL && (strings.Contains(p, `"Aligned"`) || strings.Contains(p, `== ""`)):
 						facts[bo] = an.False
-					case bo.Op == token.LEQ && strings.Contains(p, "fitsReservation("):
-						facts[bo] = an.False
+					case strings.Contains(p, "fitsReservation("):
+						// any test of "the list of reasons is empty": here it is not
+						if _, emptyWhenTrue, ok := lenZeroTest(bo); ok {
+							facts[bo] = an.False
+							if !emptyWhenTrue {
+								facts[bo] = an.True
+							}
+						}
 					}
 				}
 			}
@@ -701,4 +707,38 @@ func c05prune(c *Ctx) {
 		}
 	}
 	r.Floor("PATH", "per-node entry drops", n, 10)
+}
+
+// lenZeroTest recognises a comparison of len(x) with a constant that is a test for emptiness: len(x) <= 0, == 0,
+// < 1 (empty when true) and len(x) > 0, != 0, >= 1 (empty when false), in either operand order.
+func lenZeroTest(bo *ssa.BinOp) (arg ssa.Value, emptyWhenTrue bool, ok bool) {
+	x, y, op := bo.X, bo.Y, bo.Op
+	if _, isC := constIntOf(x); isC {
+		x, y = y, x
+		switch op {
+		case token.LSS:
+			op = token.GTR
+		case token.GTR:
+			op = token.LSS
+		case token.LEQ:
+			op = token.GEQ
+		case token.GEQ:
+			op = token.LEQ
+		}
+	}
+	call, isCall := x.(*ssa.Call)
+	if !isCall || !an.IsBuiltinCall(call, "len") {
+		return nil, false, false
+	}
+	k, isC := constIntOf(y)
+	if !isC {
+		return nil, false, false
+	}
+	switch {
+	case k == 0 && (op == token.LEQ || op == token.EQL), k == 1 && op == token.LSS:
+		return call.Call.Args[0], true, true
+	case k == 0 && (op == token.GTR || op == token.NEQ), k == 1 && op == token.GEQ:
+		return call.Call.Args[0], false, true
+	}
+	return nil, false, false
 }
